@@ -114,7 +114,10 @@ def main(run):
     bad = compile_obligation() if ok else []
     rng = random.Random(run.seed)
     texts = make_texts(rng, run.tier)
-    cases = [{"id": i, "base": BASE, "text": t} for i, (_, t) in enumerate(texts)]
+    # every text from the known 3-rule state; every third text ALSO from the empty state (fresh builder / cleared pool)
+    n0 = len(texts)
+    texts = texts + [(k + "@empty", t) for i, (k, t) in enumerate(texts) if i % 3 == 0 or k == "fixed"]
+    cases = [{"id": i, "base": "" if k.endswith("@empty") else BASE, "text": t} for i, (k, t) in enumerate(texts)]
     run.log("submitting %d texts to the five entry points" % len(cases))
     shards = [cases[i::NCPU] for i in range(NCPU)]
 
@@ -129,10 +132,12 @@ def main(run):
         return res
     obs = sorted([o for out in parallel_map(one, [s for s in shards if s]) for o in out], key=lambda o: o["id"])
     problems = []   # (id, code, detail)
-    base_rules = {n: (s, d) for n, s, d in BASE_RULES}
+    base_rules_full = {n: (s, d) for n, s, d in BASE_RULES}
     stream_stats, nontrivial = {}, set()
     for (kind, text), o in zip(texts, obs):
-        st = stream_stats.setdefault(kind, {"texts": 0, "accepted": 0})
+        base_rules = {} if kind.endswith("@empty") else base_rules_full
+        kind = kind.replace("@empty", "")
+        st = stream_stats.setdefault(kind + ("" if base_rules else " (from the empty state)"), {"texts": 0, "accepted": 0})
         st["texts"] += 1
         if o.get("crash"):
             problems.append((o["id"], "crash", o.get("stderr", "")[:300]))
@@ -184,7 +189,7 @@ def main(run):
         sig = {"kind": "compile-text", "symptom": code}
         if code == "disagree":
             sig["accepting"] = sorted(k for k, v in detail.items() if v)
-        run.report(sig, {"base": BASE, "text": texts[cid][1], "stream": texts[cid][0], "detail": detail, "observation": obs[cid]},
+        run.report(sig, {"base": cases[cid]["base"], "text": texts[cid][1], "stream": texts[cid][0], "detail": detail, "observation": obs[cid]},
                    "C10: %s for the text %r: %s" % (code, texts[cid][1][:160], str(detail)[:300]))
     if bad and not found_disagree:
         run.report({"kind": "obligation", "symptom": "ep_wf", "names": bad}, {"obligation": "forallb ep_wf gen_eps = true", "offending": bad, "generated": open(os.path.join(GEN, "Gen_Compile.v")).read()[-900:],
@@ -195,7 +200,7 @@ def main(run):
     cov = run.coverage
     cov["discharged"] += (1 if ok and not bad else 0) + (0 if problems else 1)
     cov.update({"evaluations": len(texts) * 5, "distinct_nontrivial": len(nontrivial),
-                "rule": "three streams: valid multi-rule texts over 11 body shapes (~38%), token-level mutations of valid texts — delete / replace / insert / swap of 1-3 tokens over a 70-token vocabulary with unknown characters, keyword case variants, unterminated strings and comments, huge literals (~47%), arbitrary bytes incl. NUL and non-ASCII (~15%), plus 16 fixed texts; every text is submitted to all five entry points from a known 3-rule state; "
+                "rule": "three streams: valid multi-rule texts over 11 body shapes (~38%), token-level mutations of valid texts — delete / replace / insert / swap of 1-3 tokens over a 70-token vocabulary with unknown characters, keyword case variants, unterminated strings and comments, huge literals (~47%), arbitrary bytes incl. NUL and non-ASCII (~15%), plus 16 fixed texts; every text is submitted to all five entry points from a known 3-rule state, and every third text (and all fixed texts) also from the EMPTY state (fresh builder / cleared pool); "
                         "checked: returned normally (no panic / crash), pairwise accept/reject agreement, exact state equality on reject, on accept the state equals the replacement / merge of the rules the text defines, sortedness and index consistency afterwards; "
                         "distinct non-trivial = distinct texts that are valid with >= 2 rules, or mutated, or on which the entry points disagree",
                 "streams": stream_stats, "entry_points": ENTRIES5, "traces_validated_against_impl": len(texts),
